@@ -754,6 +754,8 @@ class Backend:
 
         if env and env.varnames:
             reasons.append('to set env')
+            if any('\n' in v for v in env.get_env({}).values()):
+                reasons.append('because an environment value contains newlines')
 
         if separator != ' ':
             reasons.append('to use a custom argument separator')
